@@ -10,6 +10,7 @@ import (
 	"github.com/aperturerobotics/bifrost/link"
 	"github.com/aperturerobotics/bifrost/peer"
 	"github.com/aperturerobotics/bifrost/transport"
+	"github.com/pkg/errors"
 	"github.com/quic-go/quic-go"
 	"github.com/sirupsen/logrus"
 )
@@ -165,7 +166,18 @@ func (t *Transport) DialPeer(ctx context.Context, peerID peer.ID, as string) (li
 		return nil, false, err
 	}
 
-	return lnk, false, err
+	// The dial itself accepts whichever peer answers at the address: the link
+	// is a link to peerID only if that peer authenticated in the handshake.
+	if rpeer := lnk.GetRemotePeer(); len(peerID) != 0 && rpeer != peerID {
+		return nil, false, errors.Errorf(
+			"dialed %s: expected peer %s but %s answered",
+			as,
+			peerID.String(),
+			rpeer.String(),
+		)
+	}
+
+	return lnk, false, nil
 }
 
 // CancelDialer cancels the dialer to a given address.
